@@ -455,6 +455,10 @@ func genDialogOp(g *gen, c *Cfg, n int, typ string) Op {
 		if sub.S["method"] == "NOTIFY" {
 			sub.S["state"] = g.pick("active", "active;expires=600", "pending")
 		}
+		if (sub.S["method"] == "INVITE" || sub.S["method"] == "UPDATE" || sub.S["method"] == "INFO") && g.chance(30) {
+			// a refused re-INVITE (or any refused mid-dialog request) leaves the dialog as it was
+			sub.I["status"] = g.pick2(488, 491, 302, 500, 603, 404)
+		}
 		op.Sub = append(op.Sub, sub)
 	}
 	if g.chance(70) {
